@@ -109,6 +109,13 @@ def programs(tier: str):
             yield {"family": "scope", "block": b, "cancels": 1, "outer": False, "batch": 2}
             if b["spawns"]:
                 yield {"family": "scope", "block": dict(b, ending="raise"), "cancels": 1, "outer": False, "batch": 2}
+    # the cancellation injected between two iterations of the loop (not only when the loop has
+    # gone quiescent): e.g. after exactly one step of an enter / exit that takes several
+    for b in outer_blocks:
+        if len(b["disp"]) <= 1 and len(b["spawns"]) <= 1:
+            yield {"family": "scope", "block": b, "cancels": 1, "outer": False, "fine": True}
+            if b["spawns"]:
+                yield {"family": "scope", "block": dict(b, ending="raise"), "cancels": 1, "outer": False, "fine": True}
     # nested: an inner block of every kind inside a simple / busy outer scope
     inner_kinds = [
         {"kind": "sscope", "supply": ["A"], "pause": True, "ending": "return"},
@@ -319,7 +326,7 @@ def execute(program, ch: Chooser) -> Result:  # noqa: C901
         return _check_script(program, ch)
     if program["family"] == "self":
         return _self_script(program, ch)
-    r = Run(program, ch, cancels=1, batch=program.get("batch", 1))
+    r = Run(program, ch, cancels=1, batch=program.get("batch", 1), fine=program.get("fine", False))
     viols: list[dict] = []
     waited: list = []
 
